@@ -19,10 +19,21 @@ Definition key := N.       (* node keys; which number is START / END is immateri
 Definition handle := N.
 
 (* ------------------------------------------------------------------ handle store *)
+(* the history of a store: every handle is created by HFresh (a producer's stream, an emptyStream),
+   as a child of HCopy or as the result of HMerge, and is retired by HConsume (a consumer read it to
+   EOF or closed it), by HCopy (it lives on in its children: closing / draining all of them releases
+   it) or by HMerge (it lives on in the merged stream: closing / draining that one releases it) *)
+Inductive hev :=
+| HFresh (h : handle)
+| HCopy (h : handle) (cs : list handle)
+| HMerge (hs : list handle) (h : handle)
+| HConsume (h : handle).
+
 Record store := {
   s_next : N;              (* next fresh handle *)
   s_open : list handle;    (* live handles (a multiset; kept in creation order) *)
   s_log  : list Z;         (* sizes of the Copy(n) calls with n >= 2, oldest first — the hook observable *)
+  s_hist : list hev;       (* newest first *)
 }.
 
 Fixpoint remove_one (h : handle) (l : list handle) : list handle :=
@@ -41,9 +52,10 @@ Definition copy_item (h : handle) (n : Z) (s : store) : list handle * store :=
     let hs := fresh_handles (s_next s) (Z.to_nat n) in
     (hs, {| s_next := s_next s + Z.to_N n;
             s_open := remove_one h (s_open s) ++ hs;
-            s_log := s_log s ++ [n] |}).
+            s_log := s_log s ++ [n];
+            s_hist := HCopy h hs :: s_hist s |}).
 
-Definition init_store (h : handle) : store := {| s_next := h + 1; s_open := [h]; s_log := [] |}.
+Definition init_store (h : handle) : store := {| s_next := h + 1; s_open := [h]; s_log := []; s_hist := [HFresh h] |}.
 
 (* ------------------------------------------------------------------ the task *)
 (* one branch of the completed node: declared end nodes, whether it was added without data
